@@ -168,20 +168,24 @@ open AL.Yaml AL.Ast AL.PW Driver
 def diagS (d : AL.Rules.Diag) : String :=
   s!"{d.pos.line}:{d.pos.col}:{d.kind}:{d.code}:{",".intercalate (d.args.map hexStr)}"
 
-/-- `lintwf <numbers> <node>`: the parser and the AST-only rules, sorted as `Linter.check` sorts -/
+/-- `lintwf <numbers> <bad urls> <node>`: the parser and the AST-only rules, sorted as `Linter.check` sorts;
+`<bad urls>`: the Docker URIs `url.Parse` rejects -/
 def handleLint : List String → String
-  | [nums, node] =>
+  | [nums, urls, node] =>
     let ns : Option (List Num) := match readSExp nums with
       | some (.atom "E") => some []
       | some (.list l) => l.mapM numOf
       | _ => none
-    match ns, (readSExp node) >>= nodeOf with
-    | some ns, some n =>
+    let bad : Option (List String) := match readSExp urls with
+      | some (.list l) => l.mapM SExp.str?
+      | _ => none
+    match ns, bad, (readSExp node) >>= nodeOf with
+    | some ns, some bad, some n =>
       let isNum : String → Bool := fun s => match ns.find? (·.value = s) with
         | some x => (match x.float with | .err => false | _ => true)
         | none => false
-      ";".intercalate ((AL.Rules.lint (cfgOf ns) isNum n).map diagS)
-    | _, _ => "bad-op"
+      ";".intercalate ((AL.Rules.lint (cfgOf ns) isNum (fun u => !bad.contains u) n).map diagS)
+    | _, _, _ => "bad-op"
   | _ => "bad-op"
 
 end Driver.ParseWfD
